@@ -223,7 +223,7 @@ KeyField(mapkey, j, kv) == mapkey \o (IF kv = "k" THEN ".k" ELSE ".v") \o Digit(
 
 Node(field, fk, r, K, sc) ==
   [field |-> field, fk |-> fk, allow |-> Abs(r.allow, K), pos |-> Abs(r.pos, K), reg |-> r.reg,
-   sig |-> fk \o ":" \o ScSig(sc), lastc |-> K + r.lastc]
+   sig |-> fk \o ":" \o ScSig(sc), lastc |-> K + r.lastc, blk |-> sc.style \in BlockStyles]
 
 \* block mapping entries: one (or more) lines per entry, starting at absolute line K
 RECURSIVE MapBlock(_, _, _, _, _, _)
@@ -260,7 +260,7 @@ RenderItem(it, ri, isFirst, K) ==
       keyreg == <<[l |-> K, lo |-> pi + 1, hi |-> pi + Len(it.k)]>>
       keypos == <<[l |-> K, f |-> pi + 1, t |-> pi + Len(it.k), bl |-> FALSE]>>
       keynode == [field |-> it.k, fk |-> "mapkey", allow |-> keyreg, pos |-> keypos, reg |-> TRUE,
-                  sig |-> "mapkey:" \o it.k, lastc |-> K]
+                  sig |-> "mapkey:" \o it.k, lastc |-> K, blk |-> FALSE]
   IN
   CASE it.kind = "cmt"   -> [lines |-> <<Cat(FSp(pi), F("# note"))>>, nodes |-> <<>>, lastc |-> 0]
     [] it.kind = "blank" -> [lines |-> <<Empty>>, nodes |-> <<>>, lastc |-> 0]
@@ -283,13 +283,23 @@ Min(a, b) == IF a <= b THEN a ELSE b
 RECURSIVE JoinT(_, _)
 JoinT(ws, i) == IF i > Len(ws) THEN "" ELSE (IF i = 1 THEN "" ELSE " ") \o ws[i].t \o JoinT(ws, i + 1)
 
+\* An empty line directly behind a block scalar belongs to that scalar (with `+` chomping its line break is a
+\* character of the value): the span of the scalar is extended over it.
+ExtendLast(nodes, K) ==
+  IF nodes = <<>> THEN nodes
+  ELSE LET nd == nodes[Len(nodes)] IN
+       IF nd.blk /\ nd.allow[Len(nd.allow)].l = K - 1
+       THEN [nodes EXCEPT ![Len(nodes)].allow = Append(@, [l |-> K, lo |-> 1, hi |-> 1]), ![Len(nodes)].reg = FALSE]
+       ELSE nodes
+
 \* dash: the first item carries the "- " of the list entry (FALSE when the entry starts with an anchor line)
 RECURSIVE RenderItems(_, _, _, _, _, _)
 RenderItems(items, i, ri, K, dash, acc) ==
   IF i > Len(items) THEN acc
-  ELSE LET r == RenderItem(items[i], ri, i = 1 /\ dash, K) IN
+  ELSE LET r == RenderItem(items[i], ri, i = 1 /\ dash, K)
+           prev == IF items[i].kind = "blank" THEN ExtendLast(acc.nodes, K) ELSE acc.nodes IN
        RenderItems(items, i + 1, ri, K + Len(r.lines), dash,
-                   [lines |-> acc.lines \o r.lines, nodes |-> acc.nodes \o r.nodes, last |-> Max(acc.last, r.lastc)])
+                   [lines |-> acc.lines \o r.lines, nodes |-> prev \o r.nodes, last |-> Max(acc.last, r.lastc)])
 
 NameItem(rule) == CHOOSE i \in 1..Len(rule.items) : rule.items[i].k \in {"alert", "record"}
 RuleType(rule) == IF rule.items[NameItem(rule)].k = "alert" THEN "alerting" ELSE "recording"
